@@ -169,7 +169,7 @@ async fn observe_td(c: &Case, work: &str) -> reader::Obs {
     }
     let entries = mc_entries(fam, &c.count, false);
     let attrs = mc_attrs(&c.attrs);
-    let nexthop = mc_nexthop(fam, &c.nh);
+    let nexthop = if c.nh == "none" { None } else { mc_nexthop(fam, &c.nh) };
     // also one prefix of the OTHER unicast family so that both RIB subtypes and the shared peer table are written
     let other = if fam == Family::IPV4 { Family::IPV6 } else { Family::IPV4 };
     let other_entries = mc_entries(other, "one", false);
